@@ -673,7 +673,11 @@ class Impl:
             srcm = 'a%d' % src
             roots = [self.handles[srcm][h] for h in hs]
             try:
-                got = _c.copy_bdds_from(roots, a)
+                if len(roots) == 1:
+                    # a single root: `copy_bdd(u, target)` with its own (default) memo
+                    got = [_c.copy_bdd(roots[0], a)]
+                else:
+                    got = _c.copy_bdds_from(roots, a)
             finally:
                 del roots
             out = [self._h(m, f) for f in got]
